@@ -372,3 +372,54 @@ Definition from_seconds_bits (b : Z) : Z := from_seconds (f_of_bits b).
    reported (one per direct steer_offset) *)
 Definition case_code_fs (i : (wcfg * Z * bool * list wop) * list Z) : list Z :=
   case_code (fst i) ++ 0 :: map from_seconds_bits (snd i).
+
+(* ------------------------------------------------------------------ *)
+(* specification vocabulary used by Props/C01.v and Props/C02.v        *)
+
+Definition opt_in_i64 (o : option Z) : Prop :=
+  match o with Some v => in_i64 v | None => True end.
+Definition thr_wf (t : thr) : Prop := opt_in_i64 (fwd t) /\ opt_in_i64 (bwd t).
+(* the thresholds are values of the i64 duration type (a typing fact, not a restriction) *)
+Definition cfg_wf (c : cfg) : Prop :=
+  thr_wf (c_startup c) /\ thr_wf (c_single c) /\ opt_in_i64 (c_acc c).
+
+(* the mathematical reading of a step threshold: strictly less than `forward`
+   forwards, strictly less than `backward` backwards; None = unbounded *)
+Definition within (t : thr) (d : Z) : Prop :=
+  (forall f, fwd t = Some f -> d < f) /\ (forall b, bwd t = Some b -> - b < d).
+
+(* the negation used by is_within is the mathematical one: always for the
+   saturating Neg, and for the wrapping Neg unless the backward threshold is i64::MIN *)
+Definition neg_ok (ar : arith) (t : thr) : Prop :=
+  sat_neg ar = true \/ bwd t <> Some i64_min.
+
+(* a history with, per operation, the state it ran in and the calls it made *)
+Fixpoint trace (ar : arith) (c : cfg) (s : st) (ops : list op) : list (st * list call) * res st :=
+  match ops with
+  | [] => ([], Ok s)
+  | o :: r =>
+      match step ar c s o with
+      | (cs, Ok s') => let (t, e) := trace ar c s' r in ((s, cs) :: t, e)
+      | (cs, x) => ([(s, cs)], x)
+      end
+  end.
+
+Definition steps_of (cs : list call) : list Z :=
+  flat_map (fun c => match c with Step d => [d] | _ => [] end) cs.
+Definition freqs_of (cs : list call) : list float :=
+  flat_map (fun c => match c with SetFreq f => [f] | _ => [] end) cs.
+(* steps made while in_startup was still set / afterwards *)
+Definition startup_steps (t : list (st * list call)) : list Z :=
+  flat_map (fun x => if in_startup (fst x) then steps_of (snd x) else []) t.
+Definition later_steps (t : list (st * list call)) : list Z :=
+  flat_map (fun x => if in_startup (fst x) then [] else steps_of (snd x)) t.
+Definition sum_abs (l : list Z) : Z := fold_right (fun d a => Z.abs d + a) 0 l.
+
+Definition is_consensus_update (o : op) : bool :=
+  match o with Update (Some _) _ => true | _ => false end.
+
+(* a step of d would violate a threshold in state s *)
+Definition violates (c : cfg) (s : st) (d : Z) : Prop :=
+  if in_startup s then ~ within (c_startup c) d
+  else ~ within (c_single c) d \/
+       (exists a, c_acc c = Some a /\ a < Z.min (acc s + Z.abs d) i64_max).
